@@ -756,6 +756,10 @@ package gorums
 //@   requires c != nil && c.node != nil && streamDownErr != nil
 //@   ghost had0 (Array Int Bool) = constarr("Int", false)
 //@   ghost str0 (Array Int Bool) = constarr("Int", false)
+//@   ghost sentFor Int = 0
+//@   ghost sentAny Bool = false
+//@   on delete "channel.responseRouters"
+//@     assert[C07.e] sentAny && sentFor == key
 //@   on call "c.responseMut.Lock"
 //@     after set had0 = mhas(c.responseRouters)
 //@   loop "for msgID, router := range c.responseRouters"
@@ -770,6 +774,8 @@ package gorums
 //@     nonblocking[C09.a] !router.streaming ==> RouterCredit[c][msgID] >= 1
 //@     nonblocking[C09.a] router.streaming ==> RouterCredit[c][msgID] >= 1
 //@     set RouterCredit = store(RouterCredit, c, store(RouterCredit[c], msgID, RouterCredit[c][msgID] - 1))
+//@     set sentFor = msgID
+//@     set sentAny = true
 //@   ensures[C07.e,C18.a] forall(id, !in(id, c.responseRouters))
 //@   blocks never
 //@   opt effect-tags=C09.a
@@ -864,11 +870,17 @@ package gorums
 //@   mode concurrent
 //@   requires c != nil && c.node != nil && c.parentCtx != nil && streamDownErr != nil
 //@   ghost cancelled Int = 0
+//@   ghost owing Bool = false
 //@   loop "for {"
-//@     invariant cancelled == 0
+//@     invariant cancelled == 0 && !owing
+//@   on call "c.gorumsStream.RecvMsg"
+//@     after set owing = res0 != nil
+//@   on return
+//@     assert[C07.e,C12.b] !owing
 //@   on call "c.cancelPendingMsgs"
 //@     assert[C09.b] nolocks()
 //@     after set cancelled = 1
+//@     after set owing = false
 //@   on call "c.reconnect"
 //@     assert[C07.e] cancelled == 1 && nolocks()
 //@     after set cancelled = 0
@@ -897,7 +909,13 @@ package gorums
 //@   props C09 C10 C12 C15
 //@   mode concurrent
 //@   requires c != nil && c.parentCtx != nil
+//@   ghost checked Bool = false
+//@   on call "c.streamMut.Lock"
+//@     after set checked = false
+//@   on call "c.streamBroken.get"
+//@     set checked = held(c.streamMut)
 //@   on call "c.gorumsClient.NodeStream"
+//@     assert[C09.d,C10.a] checked
 //@     assert[C10.c] ctxParent(arg0) == c.parentCtx && held(c.streamMut)
 //@   blocks until c.parentCtx
 //@   opt effect-tags=C12.a
@@ -1188,3 +1206,49 @@ package gorums
 // (C14.b: "nodes are exactly the operands' nodes, each id once" is proved for the list handed
 // to the final sort - the assertions after mgr.sortNodes above; the final sort permutes
 // that list (trusted sort.Sort contract), which the sortedness proof below relies on too.)
+
+// WithNodeIDs: exactly the named registered nodes (each once), or an error (C14.c).
+// wfMgr (the invariant of RawManager.mu) is a precondition here: the constructors run
+// with sequential semantics (DESIGN.md section 4, C14).
+//@ func (RawConfiguration).contains
+//@   props C14
+//@   nopanic C14
+//@   requires forall(k, 0, len(c), c[k] != nil)
+//@   loop "for _, n := range c"
+//@     invariant forall(k, 0, idx, c[k].id != id)
+//@   ensures[C14.a] result <==> exists(k, 0, len(c), c[k].id == id)
+
+//@ func (nodeIDs).newConfig
+//@   props C14
+//@   nopanic C14
+//@   requires mgr != nil && mgr.lookup != nil
+//@   requires forall(id, in(id, mgr.lookup) ==> mgr.lookup[id] != nil && mgr.lookup[id].id == id)
+//@   ghost want (Array Int Bool) = constarr("Int", false)
+//@   on call "mgr.Node"
+//@     set want = store(want, arg0, true)
+//@   loop "for _, id := range o.nodeIDs"
+//@     invariant base(nodes) != 0 && base(nodes) != base(o.nodeIDs) && base(nodes) != base(mgr.nodes) && mgr.lookup == old(mgr.lookup)
+//@     invariant forall(id, in(id, mgr.lookup) <==> old(in(id, mgr.lookup)))
+//@     invariant forall(id, in(id, mgr.lookup) ==> mgr.lookup[id] != nil && mgr.lookup[id].id == id)
+//@     invariant forall(i, 0, len(nodes), nodes[i] != nil)
+//@     invariant forall(i, 0, len(nodes), want[nodes[i].id])
+//@     invariant[C14.f] forall(i, 0, len(nodes), in(nodes[i].id, mgr.lookup) && mgr.lookup[nodes[i].id] == nodes[i])
+//@     invariant[C14.a] forall(i, 0, len(nodes), forall(j, 0, len(nodes), i != j ==> nodes[i].id != nodes[j].id))
+//@     invariant[C14.c] forall(k, 0, idx, want[o.nodeIDs[k]] && in(o.nodeIDs[k], mgr.lookup))
+//@     invariant[C14.c] forall(k, 0, idx, exists(i, 0, len(nodes), nodes[i].id == o.nodeIDs[k]))
+//@     invariant len(nodes) <= idx && (idx > 0 ==> len(nodes) > 0)
+//@   on call "mgr.sortNodes"
+//@     after assert forall(i, 0, len(nodes), nodes[i] != nil)
+//@     after assert[C14.c] forall(i, 0, len(nodes), in(nodes[i].id, mgr.lookup) && mgr.lookup[nodes[i].id] == nodes[i])
+//@     after assert[C14.c] forall(k, 0, len(o.nodeIDs), exists(i, 0, len(nodes), nodes[i].id == o.nodeIDs[k]))
+//@     after assert[C14.a] forall(i, 0, len(nodes), forall(j, 0, len(nodes), i != j ==> nodes[i].id != nodes[j].id))
+//@   on call "OrderedBy(ID).Sort"
+//@     after assert[C14.a] forall(i, 0, len(nodes), nodes[i] != nil)
+//@     after assert[C14.a] forall(i, 0, len(nodes), forall(j, 0, len(nodes), i != j ==> nodes[i].id != nodes[j].id))
+//@     after assert[C14.a] forall(i, 0, len(nodes), forall(j, 0, len(nodes), i < j ==> !apply_lessFunc(funcval("var ID"), nodes[j], nodes[i])))
+//@     after assert[C14.a] forall(i, 0, len(nodes), forall(j, 0, len(nodes), i < j ==> nodes[i].id <= nodes[j].id))
+//@   ensures[C14.e] err == nil ==> len(nodes) > 0
+//@   ensures[C14.e] len(o.nodeIDs) == 0 ==> err != nil
+//@   ensures[C14.c] err == nil ==> forall(k, 0, len(o.nodeIDs), old(in(o.nodeIDs[k], mgr.lookup)))
+//@   ensures[C14.a] err == nil ==> forall(i, 0, len(nodes), nodes[i] != nil) && forall(i, 0, len(nodes), forall(j, 0, len(nodes), i < j ==> nodes[i].id < nodes[j].id))
+//@   ensures[C14.d] forall(k, 0, len(o.nodeIDs), o.nodeIDs[k] == old(o.nodeIDs[k]))
